@@ -248,6 +248,15 @@ def prove(pid, modules, allow_bv_decide=False):
     info["axioms"] = axioms
     info["obligations"] = len(axioms)
     info["discharged"] = len([t for t in axioms if axioms[t] is not None]) if not problems else 0
+    # thorough tier: re-check the compiled property modules with the independent checker
+    if os.environ.get("VERIF_TIER_EFFECTIVE") == "thorough" and not problems:
+        rechecked = {}
+        for mod in modules:
+            r = sh(["lake", "env", "leanchecker", mod], cwd=LEAN, timeout=3600)
+            rechecked[mod] = r.returncode
+            if r.returncode != 0:
+                problems.append(f"leanchecker rejects {mod}: " + (r.stdout + r.stderr)[-400:])
+        info["leanchecker"] = rechecked
     info["lean_wall_s"] = round(time.time() - t0, 1)
     return info, problems
 
